@@ -18,18 +18,22 @@ type c05Shape struct {
 	method    string
 	generates bool
 	status    bool
+	depGen    bool   // a dependency (re)generates one of the matched sources from seed.txt
 	excl      string // where the exclude entry sits: "after" (documented use) | "before" (excluded files are re-included by the later pattern)
 }
 
 func (sh c05Shape) taskfile() string {
 	s := "version: '3'\ntasks:\n  build:\n    method: " + sh.method + "\n    sources:\n"
 	if sh.excl == "before" {
-		s += "      - exclude: 'src/skip/*.txt'\n      - 'src/**/*.txt'\n"
+		s += "      - exclude: 'src/skip/**/*.txt'\n      - 'src/**/*.txt'\n"
 	} else {
-		s += "      - 'src/**/*.txt'\n      - exclude: 'src/skip/*.txt'\n"
+		s += "      - 'src/**/*.txt'\n      - exclude: 'src/skip/**/*.txt'\n"
 	}
 	if sh.generates {
 		s += "    generates: ['out.txt']\n"
+	}
+	if sh.depGen {
+		s += "    deps: [gen]\n"
 	}
 	if sh.status {
 		s += "    status: ['test -f ok.flag']\n"
@@ -37,6 +41,9 @@ func (sh c05Shape) taskfile() string {
 	s += "    cmds:\n      - 'echo run >> trace.log'\n"
 	if sh.generates {
 		s += "      - 'echo built > out.txt'\n"
+	}
+	if sh.depGen {
+		s += "  gen:\n    cmds:\n      - 'cp seed.txt src/g.txt'\n"
 	}
 	return s
 }
@@ -76,7 +83,7 @@ func refFingerprint(dir string, sh c05Shape) map[string]string {
 			return nil
 		}
 		rel, _ := filepath.Rel(dir, p)
-		if sh.excl == "after" && filepath.Dir(rel) == filepath.Join("src", "skip") {
+		if sh.excl == "after" && strings.HasPrefix(rel, filepath.Join("src", "skip")+string(filepath.Separator)) {
 			return nil
 		}
 		if sh.method == "checksum" {
@@ -169,6 +176,7 @@ func c05Events(sh c05Shape) []hEvent {
 		fe("edit-a", exists("src/a.txt"), true, func(d string) { toggle(filepath.Join(d, "src/a.txt")) }),
 		fe("edit-nested", nil, true, func(d string) { toggle(filepath.Join(d, "src/d/c.txt")) }),
 		fe("edit-excluded", nil, skipMatters, func(d string) { toggle(filepath.Join(d, "src/skip/s.txt")) }),
+		fe("edit-excluded-deep", nil, skipMatters, func(d string) { toggle(filepath.Join(d, "src/skip/deep/x/s2.txt")) }),
 		fe("edit-unmatched", nil, false, func(d string) { toggle(filepath.Join(d, "other.md")) }),
 		fe("touch-a", exists("src/a.txt"), ts, func(d string) { n := time.Now(); os.Chtimes(filepath.Join(d, "src/a.txt"), n, n) }),
 		fe("add-b", absent("src/b.txt"), true, func(d string) { os.WriteFile(filepath.Join(d, "src/b.txt"), []byte("x\n"), 0o644) }),
@@ -179,6 +187,9 @@ func c05Events(sh c05Shape) []hEvent {
 	}
 	if sh.generates {
 		evs = append(evs, fe("rm-out", exists("out.txt"), true, func(d string) { os.Remove(filepath.Join(d, "out.txt")) }))
+	}
+	if sh.depGen {
+		evs = append(evs, fe("edit-seed", nil, true, func(d string) { toggle(filepath.Join(d, "seed.txt")) }))
 	}
 	if sh.status {
 		evs = append(evs,
@@ -210,6 +221,8 @@ func c05Events(sh c05Shape) []hEvent {
 				statusFailing = err != nil
 			}
 			genMissing := genMissingBefore
+			// (evaluated after the invocation: a dependency may regenerate a source first; the task's
+			// own commands never touch its sources)
 			cur := refFingerprint(dir, sh)
 			change := fpChange(m.Fp, cur, sh.method)
 			expect := !m.EverOK || change != "" || forced || statusFailing || genMissing
@@ -262,21 +275,25 @@ func c05Units(tier string) []*Unit {
 			c05Shape{name: "generates", method: m, generates: true, excl: "after"},
 			c05Shape{name: "status", method: m, status: true, excl: "after"},
 			c05Shape{name: "exclude-first", method: m, excl: "before"},
+			c05Shape{name: "dep-regenerates-source", method: m, depGen: true, excl: "after"},
 		)
 	}
 	var us []*Unit
 	for _, sh := range shapes {
 		sh := sh
-		depth := 4
+		depth := 3
 		if tier == "thorough" {
-			depth = 6
+			depth = 5
 		}
 		name := fmt.Sprintf("hist/%s/%s/depth%d", sh.method, sh.name, depth)
 		us = append(us, &Unit{Name: name, Weight: 5, Custom: func(u *Unit, dir string, deadline time.Time) *vlab.UnitResult {
 			cfg := hConfig{Name: name, Depth: depth, Events: c05Events(sh),
 				Ignore: func(p string) bool { return p == "trace.log" },
 				Init: func(dir string) hModel {
-					files := map[string]string{"Taskfile.yml": sh.taskfile(), "src/a.txt": "1\n", "src/d/c.txt": "1\n", "src/skip/s.txt": "1\n", "other.md": "1\n"}
+					files := map[string]string{"Taskfile.yml": sh.taskfile(), "src/a.txt": "1\n", "src/d/c.txt": "1\n", "src/skip/s.txt": "1\n", "src/skip/deep/x/s2.txt": "1\n", "other.md": "1\n"}
+					if sh.depGen {
+						files["seed.txt"] = "1\n"
+					}
 					if sh.status {
 						files["ok.flag"] = ""
 					}
